@@ -11,6 +11,10 @@ mod c08;
 mod c09;
 mod c10;
 mod c11;
+#[cfg(prqlc_verif)]
+mod c11s;
+#[cfg(prqlc_verif)]
+mod sch;
 mod c12;
 mod c13;
 mod c14;
@@ -77,6 +81,10 @@ fn main() {
     }
     if args[0] == "c11w" {
         std::process::exit(c11::worker(&args[1..]));
+    }
+    #[cfg(prqlc_verif)]
+    if args[0] == "c11s" {
+        std::process::exit(c11s::worker(&args[1..]));
     }
     if args[0] == "c12w" {
         std::process::exit(c12::worker(&args[1..]));
